@@ -125,3 +125,16 @@ PROPS["C04"] = dict(
                  "verbatim bodies that contain tag syntax are checked for what the property states (not evaluated: same output "
                  "under three contexts, no context data, no spy invoked), not for byte-exact reproduction of the inner tags"],
 )
+
+PROPS["C07"] = dict(
+    level="model_checking",
+    stages=[dict(name="enum", module="MC_C07", cfg={"quick": "MC_C07_quick.cfg", "thorough": "MC_C07_thorough.cfg"},
+                 timeout={"quick": 300, "thorough": 1500},
+                 trace=dict(module="Trace_C07", cfg="Trace_C07.cfg"))],
+    nontrivial=lambda r: "vt:str" in (r.get("tags") or []),
+    rule="every string up to MaxLen over {< > & \" ' a ; # 3 9 e-acute euro 0xFF NUL} (+ already-escaped seeds, ints, null) "
+         "x 9 positions (print, after/before another filter, apply, macro body, included template, if body, set, concatenation) "
+         "x names escape/e (metamorphic pair); the engine's outputs are recorded and TLC evaluates ValidEscape on each",
+    assumptions=["accepted references: &amp; &lt; &gt; &quot;|&#34;|&#x22; &#39;|&#039;|&#x27;|&apos;",
+                 "TLC checks on the model that the reference Escape has no raw special character and decodes back to the input"],
+)
